@@ -21,48 +21,62 @@ from prompt_toolkit.layout.utils import explode_text_fragments
 
 ID = "C18"
 DRIVER = "drv_c18"
-PROPS = ["Ptk.Props.C18Frag", "Ptk.Props.C18", "Ptk.Props.C18Tok"]
+PROPS = ["Ptk.Props.C18Frag", "Ptk.Props.C18", "Ptk.Props.C18Tok", "Ptk.Props.C18Html"]
 TECHNIQUE = "Lean 4 proof over hand-written executable model + differential correspondence with the real code"
 LEVEL_TEXT = ("Lean 4 theorems over an executable model of the formatted-text layer: the ANSI parser as an explicit "
-              "state machine (total; output = input minus recognised control sequences; plain strings are "
-              "reproduced character by character), interpolation inertness for ANSI templates with any number of "
-              "holes at ground state (the escaped value is spliced in with the surrounding style and the parser "
-              "state after it is unchanged), html_escape round trip and metacharacter freedom, split_lines / "
-              "explode / fragment_list_* laws; tied to /repo on every run by a differential correspondence "
-              "(exhaustive small scope + random) and a model-independent property oracle on the real code")
+              "state machine proved equal to the interpretation of a token grammar of its input (so the visible text "
+              "is the input minus recognised control sequences, in order; plain strings are reproduced verbatim; the "
+              "parameter buffer only ever holds ASCII digits), interpolation inertness for ANSI.format / % templates "
+              "with any number of holes at ground state (escaped values are spliced in with the surrounding style, "
+              "parser state unchanged), the same for HTML on a modelled XML sub-grammar (tokenizer + process_node "
+              "walk: an escaped value in text position yields exactly its own characters in the enclosing style), "
+              "html_escape / ansi_escape metacharacter freedom and round trip, split_lines = cut at newlines with "
+              "every character's style kept and join identity, explode / fragment_list_* / Template / merge laws; "
+              "tied to /repo on every run by generated SGR tables, a differential correspondence (exhaustive small "
+              "scope + random) and a model-independent property oracle on the real code")
 LEVEL_NOTE = ("trusted: Lean kernel, axioms propext/Classical.choice/Quot.sound only; the hand-written model "
               "(validated by the correspondence, not proved equal to the Python); CPython str/format/% semantics; "
-              "HTML is partial: xml.dom.minidom is modelled only on a small well-formed sub-grammar")
+              "HTML is partial: xml.dom.minidom/expat is modelled on a small sub-grammar only (sampled against the "
+              "real parser, not verified)")
 RULE = ("exhaustive: every ANSI input over an 11-symbol alphabet (ESC, 8-bit CSI, '[', digit, ';', 'm', 'C', "
         "SOH, STX, letter, superscript two) up to the tier's length; every SGR code 0..110 and the 38/48 "
-        "extended forms incl. truncated ones; every template from a small pool x every value over a 16-symbol "
-        "alphabet (printable, markup metacharacters, ESC, CSI 7/8-bit, zero-width markers, BS, format-spec "
-        "characters) up to the tier's length via format() and %; every fragment list up to 3 fragments over "
-        "4 styles x texts up to length 3 over {a, newline, wide}; then seeded random larger cases. A case is "
-        "non-trivial when some op has a control character, a hole, a newline or more than one fragment")
+        "extended forms incl. truncated ones; every markup string over a 12-symbol XML alphabet up to the tier's "
+        "length; every template from fixed pools (holes at ground, inside a CSI, inside / right after a zero-width "
+        "block; HTML holes in text, in single- and double-quoted attributes, as tag name) x every value over "
+        "16-symbol alphabets (printable, markup metacharacters, both quotes, CR/LF, ESC, NUL, CSI 7/8-bit, "
+        "zero-width markers, BS, format-spec characters) up to the tier's length via format() and %; every "
+        "fragment list up to 3 fragments over 4 styles x texts up to length 3 over {a, newline, wide}; then "
+        "seeded random larger cases (random ANSI streams, random well-formed and damaged markup, random "
+        "templates/values/specs, fragment lists with handlers, to_formatted_text/Template/merge trees). A case "
+        "is non-trivial when some op has a control or markup character, a hole, a newline or more than one "
+        "fragment")
 EXHAUSTIVE = True
 EXHAUSTIVE_SCOPE = {
-    "quick": "ANSI strings len<=4 over 11 symbols; values len<=2 over 16 symbols x template pool; "
-             "fragment lists <=2 frags, texts len<=3",
-    "thorough": "ANSI strings len<=5 over 11 symbols (+len 6 over 7 symbols); values len<=3 over 16 symbols x "
-                "template pool; fragment lists <=3 frags, texts len<=3"}
+    "quick": "ANSI strings len<=4 over 11 symbols; markup strings len<=4 over 12 symbols; values len<=2 over 16 "
+             "symbols x template pools; fragment lists <=2 frags, texts len<=3",
+    "thorough": "ANSI strings len<=5 over 11 symbols (+len 6 over 7 symbols); markup strings len<=5 over 12 "
+                "symbols; values len<=3 over 16 symbols x template pools; fragment lists <=3 frags, texts len<=3"}
 TRUSTED = ["harness/c18.py compares fragment lists (style, text, handler id) / strings / error class per op",
-           "Ptk/Model/C18*.lean are hand translations of formatted_text/{ansi,html,base,utils}.py and "
+           "Ptk/Model/C18.lean, C18Html.lean are hand translations of formatted_text/{ansi,html,base,utils}.py and "
            "layout/utils.py (correspondence-checked)",
-           "harness/gen_c18.py prints _fg_colors/_bg_colors/_256_colors and the wcwidth of the test characters"]
+           "harness/gen_c18.py prints _fg_colors/_bg_colors/_256_colors and the wcwidth of the test characters; "
+           "the side condition tablesOK (no '[' in a colour name) is re-decided by the kernel on every run"]
 ASSUMPTIONS = ["CPython str.format / Formatter.vformat / % semantics on the modelled sub-grammar "
                "(literal, {{, }}, {[n][:[[fill]align][width][.prec][s]]}; %%, %[-][width][.prec]s)",
                "wcwidth is a parameter of fragment_list_width (table of the test characters regenerated per run)",
-               "xml.dom.minidom/expat on the modelled well-formed sub-grammar: adjacent character data and "
-               "the five predefined entities are merged into one text node, verbatim"]
-PARTIAL_SCOPE = ["HTML: minidom/expat itself is not modelled beyond a small sub-grammar; values containing "
-                 "characters that XML 1.0 forbids make HTML.format raise ExpatError (known finding F6d) and a "
-                 "carriage return in a value is normalised to a newline by the XML parser",
+               "xml.dom.minidom/expat on the modelled sub-grammar (elements, quoted attributes, the five predefined "
+               "entities, numeric character references, line-end and attribute-value normalisation, ban of ]]> and "
+               "of characters outside the XML Char production; adjacent character data forms one text node)",
+               "values are str (str(value) / format(value, spec) of other types is CPython's)"]
+PARTIAL_SCOPE = ["HTML: minidom/expat is modelled on a sub-grammar only (no comments, CDATA, processing "
+                 "instructions, DOCTYPE, namespaces, non-ASCII names); the theorems are about that model",
                  "interpolation inertness is claimed (and proved) for holes at parser ground state only: a hole "
-                 "inside a template control sequence (e.g. ESC[{}m) or inside an HTML tag/attribute is "
-                 "template-controlled, not inert",
-                 "format(): conversions (!r), nested fields, keyword fields and non-str values are exercised by "
-                 "the oracle only, not modelled",
+                 "inside a template control sequence (e.g. ESC[{}m), right after a zero-width block, or inside an "
+                 "HTML tag / attribute is template-controlled, not inert",
+                 "known findings (status known): HTML.__mod__ applies %-width/precision to the escaped text; a value "
+                 "ending in ] followed by a literal > forms ]]>; a literal CR directly before a hole merges with a "
+                 "leading LF of the value",
+                 "format(): conversions (!r), nested fields, keyword fields and non-str values are not modelled",
                  "_ExplodedList mutation methods (append/extend/__setitem__) are not modelled"]
 
 ESC, CSI8, SOH, STX, BS = "\x1b", "\x9b", "\x01", "\x02", "\x08"
@@ -611,7 +625,10 @@ def oracle_html(op, viol):
             viol.append({"signature": classify(f"{site} | raises", True), "msg": f"{name}: {e} op={op!r}"})
         return
     if ideal_exc is not None:
-        viol.append({"signature": classify(f"{site} | value not inert"),
+        dflt = f"{site} | value not inert"
+        if any("'" in v for v in used):
+            dflt = "HTML.format | apostrophe in value closes a single-quoted attribute"
+        viol.append({"signature": classify(dflt),
                      "msg": f"reference raises {ideal_exc}, real code returns {got!r}: op={op!r}"})
         return
     if got != ideal:
@@ -679,7 +696,7 @@ FORMAT_SPECS = [None, "", "s", "5", ">4", "^5", "*<3", ".1", "6.2", "x^4.1s", "<
 PERCENT_SPECS = [None, "", "3", "-3", ".1", "4.1", "-4.2", "."]
 
 
-def chunked(ops, n=40):
+def chunked(ops, n=30):
     for i in range(0, len(ops), n):
         yield {"ops": ops[i:i + n]}
 
@@ -901,7 +918,7 @@ def cases(tier, rng):
         for tup in itertools.product(ANSI_ALPHA_SMALL, repeat=6):
             ops.append(["ansi", "".join(tup)])
     ops += sgr_cases()
-    yield from chunked(ops, 200)
+    yield from chunked(ops, 60)
 
     # ---- 2. escape functions + interpolation, exhaustive over short values
     vmax = 2 if quick else 3
@@ -912,7 +929,7 @@ def cases(tier, rng):
     for v in values:
         ops.append(["aesc", v])
         ops.append(["hesc", v])
-    yield from chunked(ops, 200)
+    yield from chunked(ops, 60)
     fmt_pool = [
         [["hole", None, None]],
         [["lit", "a"], ["hole", None, None], ["lit", "b"]],
@@ -940,7 +957,7 @@ def cases(tier, rng):
             if nh == 1:
                 ops.append(["amod1", t, v])
             ops.append(["amod", t, [v] + ["w" + v] * (nh - 1)])
-    yield from chunked(ops, 100)
+    yield from chunked(ops, 40)
     # every spec x a few values
     ops = []
     for sp in FORMAT_SPECS:
@@ -958,7 +975,7 @@ def cases(tier, rng):
                   ([["lit", "x"]], ["a"]), ([["lit", "x"]], [])]:
         ops.append(["afmt", t, vs])
         ops.append(["amod", [[it[0], None, None] if it[0] == "hole" else it for it in t], vs])
-    yield from chunked(ops, 100)
+    yield from chunked(ops, 40)
 
     # ---- 2b. HTML: every string over a 12-symbol markup alphabet, then templates x values
     ops = []
@@ -972,7 +989,7 @@ def cases(tier, rng):
               "x\ry\r\nz", "<b fg='a\r\nb'>x</b>", "<b fg='a&#10;b'>x</b>", "\x1b", "<b fg='a<b'>x</b>",
               "<b  fg = 'x' >y</b >", "<b\nfg='x'>y</b>", "<b fg='x'bg='y'>z</b>", "<b fg>z</b>", "<b>"]:
         ops.append(["html", t])
-    yield from chunked(ops, 200)
+    yield from chunked(ops, 60)
     hvalues = [""]
     for n in range(1, vmax + 1):
         hvalues += ["".join(t) for t in itertools.product(HTML_VALUE_ALPHA, repeat=n)]
@@ -987,7 +1004,7 @@ def cases(tier, rng):
             if nh == 1:
                 ops.append(["hmod1", t, v])
             ops.append(["hmod", t, [v] + ["w" + v] * (nh - 1)])
-    yield from chunked(ops, 100)
+    yield from chunked(ops, 40)
 
     # ---- 3. fragment utilities, exhaustive
     ops = []
@@ -997,10 +1014,10 @@ def cases(tier, rng):
         ops.append(["text", fl])
         ops.append(["len", fl])
         ops.append(["width", fl])
-    yield from chunked(ops, 250)
+    yield from chunked(ops, 60)
 
     # ---- 4. random
-    nrand = 1500 if quick else 40000
+    nrand = 1500 if quick else 80000
     ops = []
     for _ in range(nrand):
         ops.append(["ansi", rand_ansi(rng, rng.choice([1, 2, 3, 5, 8, 20]))])
@@ -1048,7 +1065,7 @@ def sample_view(case):
 def _op_nontrivial(op):
     k = op[0]
     if k in ("ansi", "aesc", "hesc", "html"):
-        return any(ord(c) < 32 or c in (CSI8, "<", "&", ">", '"') for c in op[1])
+        return any(ord(c) < 32 or c in (CSI8, "<", "&", ">", '"', "'") for c in op[1])
     if k in ("afmt", "amod", "amod1", "hfmt", "hmod", "hmod1"):
         return any(it[0] == "hole" for it in op[1])
     if k in ("split", "explode", "text", "len", "width"):
@@ -1061,7 +1078,7 @@ def nontrivial(case):
 
 
 def distribution(cases_):
-    d = {"ops": {}, "ansi_len": {}, "values_with_introducer": 0, "holes": 0}
+    d = {"ops": {}, "ansi_len": {}, "html_len": {}, "values_with_introducer": 0, "values_with_markup": 0, "holes": 0}
     for c in cases_:
         for op in c["ops"]:
             d["ops"][op[0]] = d["ops"].get(op[0], 0) + 1
@@ -1069,11 +1086,17 @@ def distribution(cases_):
                 n = len(op[1])
                 key = str(n) if n < 7 else "7+"
                 d["ansi_len"][key] = d["ansi_len"].get(key, 0) + 1
+            if op[0] == "html":
+                n = len(op[1])
+                key = str(n) if n < 7 else "7+"
+                d["html_len"][key] = d["html_len"].get(key, 0) + 1
             if op[0] in ("afmt", "amod", "amod1", "hfmt", "hmod", "hmod1"):
                 d["holes"] += sum(1 for it in op[1] if it[0] == "hole")
                 vals = [op[2]] if op[0].endswith("1") else op[2]
                 if any(any(ch in v for ch in (ESC, CSI8, SOH, STX)) for v in vals):
                     d["values_with_introducer"] += 1
+                if any(any(ch in v for ch in "<>&\"'\r") for v in vals):
+                    d["values_with_markup"] += 1
     return d
 
 
